@@ -63,13 +63,19 @@ CLAIMED = {
              "proved over a model of the table-building code. Trusted: Model/Structs.lean schema table, RFC transcription.",
         technique="Lean 4 proof (invariants over exporter operations; schema-level well-formedness; parser inversion) + strict Lean parser/validator as oracle", design="§4 C02"),
     "C04": dict(
-        text="Lean 4: hint bits equal the RFC's and are pairwise distinct (translator-regenerated), disabled address events / malformed "
-             "messages and unstored records leave blocks untouched (exporter model). Projection and reachability decided on the "
-             "implementation: every single bit cleared/alone + random masks, fully populated records; file read by the independent Lean "
-             "reader must equal the RFC projection and have zero unreachable table entries.",
-        note="Partial proof: the ~45 per-field guards of add_question_response_record are tied by correspondence, not modelled one by one. "
-             "Trusted: tools/cdnsgen.py project_qr (RFC hint semantics), Spec/Cdns.lean reachability.",
-        technique="Lean 4 proof of bit tables + exporter gating; differential against RFC projection via independent Lean reader", design="§4 C04"),
+        text="Lean 4 theorems over Model.Builder, a transliteration of the block-building path (add_question_response_record(Generic...), "
+             "add_address_event_count, add_malformed_message, add_generic_qlist/rrlist, the nine find-or-append table functions), for EVERY "
+             "record sequence and EVERY hint masks: hints_honoured (every member of every stored Q/R, signature entry and RR entry is present "
+             "only if its hint bit is set; address events / malformed messages and their data table only when enabled), "
+             "output_members_honour_hints (same on the raw value written), tables_reachable (every table entry is referred to by a stored "
+             "record or another entry: nothing enters a table on behalf of a member that is not stored), tables_closed (every stored index "
+             "addresses an existing entry); hint bits = RFC 8618 and pairwise distinct (translator-regenerated). Tie: the block the model "
+             "builds + the model writer = the bytes of the block the library wrote for the same records and hints (bld driver, up to the "
+             "hash-map order of the address-event array); plus the RFC projection via the independent Lean reader (single bit cleared/alone, "
+             "random masks, unreachable = 0) and sessions editing hints in place through get_active_block_parameters_ref() before a rotation.",
+        note="Trusted: Model/Builder.lean is hand-written (tied byte for byte by the bld correspondence); generic record values are unbounded "
+             "naturals in the model (the C++ members are fixed-width); tools/cdnsgen.py project_qr, Spec/Cdns.lean reachability as second oracle.",
+        technique="Lean 4 proof (invariants by induction over record sequences: hint guards, reachability, referential closure) + byte-exact model/implementation correspondence", design="§4 C04"),
     "C10": dict(
         text="Lean 4: returns_sum - for every call history the size of each output equals the sum of values returned while it was open "
              "(rotation's return counted for the output it closes), destroy adds one byte; encoder_returns_lengths via C06. Tied by "
